@@ -1,14 +1,20 @@
 """C16 - byte-order conversion preserves values and declares the requested order.
 
 spec -> code : ByteOrderMC.tla enumerates every abstract array (plain / structured, every
-               sequence of field kinds, every order spelling) and every chain of conversions
-               of the bounded depth; each chain is executed on real numpy arrays.
+               sequence of field kinds incl. nested records, every order spelling, every
+               memory layout: owning C-contiguous, contiguous slice, strided, reversed,
+               column of a higher-dimensional array, F-ordered 2-d, 0-d window, field(s) of
+               a larger record) and every chain of conversions of the bounded depth; each
+               chain is executed on real numpy arrays built in that layout inside a parent
+               buffer whose other bytes carry a noise pattern.
 code -> spec : after every step the real arrays are projected onto the spec's variables
                (declared order character per field, physical order per field - found by
                comparing the field's bytes with the two encodings of its known logical
                values -, buffer identity via np.shares_memory / `is`, structure token, byte
-               digest) and the recorded chains - plus longer seeded chains on wider tables -
-               are judged by ByteOrderTrace.tla (clauses of ByteOrder.tla).
+               digest, and the frame: the parent buffer's bytes that are not elements of the
+               array and the parent's dtype) and the recorded chains - plus longer seeded
+               chains on wider tables in every layout - are judged by ByteOrderTrace.tla
+               (clauses of ByteOrder.tla).
 Python never judges a result; it only maps abstract <-> concrete and records.
 """
 import hashlib
@@ -377,6 +383,7 @@ def run_chain(args):
     import esutil.numpy_util as nu
     import esutil.recfile.Util as ru
     cc = Concrete(init, conc)
+    dtype0 = str(cc.a0.dtype)
     objs = [cc.a0]
     res = 0
     st = [observe_state(cc, objs, res, first=True)]
@@ -405,7 +412,7 @@ def run_chain(args):
                     res = len(objs) - 1
             st.append(observe_state(cc, objs, res, err))
     return {"id": rid, "kinds": init["kinds"], "spell": init["spell"], "plain": cc.plain, "layout": cc.layout, "ops": ops,
-            "st": st, "conc": conc, "dtype": str(cc.a0.dtype), "shape": list(cc.shape), "variant": cc.var}
+            "st": st, "conc": conc, "dtype": dtype0, "shape": list(cc.shape), "variant": cc.var}
 
 
 # ---- classification of rejected steps (signatures) ---------------------------------------
@@ -466,7 +473,8 @@ def judge(ctx, recs, what, pending=None):
             case = {"kind": "chain", "init": {"plain": r["plain"], "kinds": r["kinds"], "spell": r["spell"], "layout": r["layout"]},
                     "ops": r["ops"][:k], "conc": r["conc"], "dtype": r["dtype"], "shape": r["shape"],
                     "layout_variant": r["variant"], "failing_step": k, "clause": clause}
-            emit.append((len(case["ops"]), rid, ("%s|%s|%s" % (entry, clause, struct_class(r)), layout_class(r)),
+            emit.append((len(case["ops"]), rid, ("%s|%s|%s" % (entry, clause, struct_class(r)), layout_class(r),
+                                                 "%s|%s|%s" % (entry, clause, "plain" if r["plain"] else "struct")),
                          "byte-order conversion outcome not allowed by ByteOrder.tla: step %d (%s) fails clause %s on %s%s, layout %s/%d"
                          % (k, entry, clause, r["dtype"], tuple(r["shape"]), r["layout"], r["variant"]), case))
     if pending is None:
@@ -477,9 +485,9 @@ def judge(ctx, recs, what, pending=None):
 def flush(ctx, pending):
     """the layout class is part of a signature only when the layout is what triggers the failure: i.e. when the same
     (entry point, clause, structure) never fails on an array that owns its C-contiguous buffer"""
-    anywhere = {sig for _, _, (sig, lc), _, _ in pending if lc == ""}
-    for _, _, (sig, lc), what, case in sorted(pending, key=lambda t: (t[0], t[1])):
-        ctx.violation(sig if sig in anywhere else sig + lc, what, case)
+    anywhere = {sig for _, _, (sig, lc, _), _, _ in pending if lc == ""}
+    for _, _, (sig, lc, coarse), what, case in sorted(pending, key=lambda t: (t[0], t[1])):
+        ctx.violation(sig if sig in anywhere else coarse + lc, what, case)
 
 
 # ---- bounds ---------------------------------------------------------------------------
@@ -514,9 +522,9 @@ def model_runs(tier):
         (c(MinFields=1, MaxFields=1, MaxDepth=1, Layouts=VIEWS), "vsweep*"),
         (c(MinFields=1, MaxFields=3, MaxDepth=3, Kinds=FLAT, Spells={"<", ">"}), 1),
         (c(MinFields=1, MaxFields=3, MaxDepth=2, Spells={"=", "|"}), 1),
-        (c(MinFields=1, MaxFields=2, MaxDepth=3, Need={"N"}, Spells={"<", ">"}), 1),
+        (c(MinFields=1, MaxFields=2, MaxDepth=3, Need={"N"}, Spells={">"}), 1),
         (c(MinFields=1, MaxFields=1, MaxDepth=3, Layouts=VIEWS, Spells={">"}, InplaceFirst=True), 1),
-        (c(MinFields=1, MaxFields=2, MaxDepth=2, Layouts=VIEWS, InplaceFirst=True), 1),
+        (c(MinFields=1, MaxFields=2, MaxDepth=2, Layouts=VIEWS, Spells={"<", ">"}, InplaceFirst=True), 1),
         (c(MinFields=3, MaxFields=3, MaxDepth=1, Layouts=VIEWS), 1),
     ]
 
@@ -580,10 +588,9 @@ def run(ctx):
     from concurrent.futures import ThreadPoolExecutor
     # 1. the specification itself: theorems + mechanism refinement on every behaviour (both machine orders).
     #    The layout enters the property only through the frame (RestThm) and the mechanism only through numpy's
-    #    contiguity flags, so the deep runs use one layout of each contiguity class and a shallow run uses all.
-    three = {"contig", "strided", "recview"}
-    full = dict(BASE, MinFields=1, MaxFields=2 if ctx.quick else 2, MaxDepth=2 if ctx.quick else 3, Layouts=three,
-                DoExport=False, **MECH)
+    #    contiguity flags, so the deep runs use one layout of each contiguity class and a shallower run uses all.
+    two = {"contig", "strided"}
+    full = dict(BASE, MinFields=1, MaxFields=2, MaxDepth=2 if ctx.quick else 3, Layouts=two, DoExport=False, **MECH)
     wide = dict(full, MinFields=3, MaxFields=3, MaxDepth=1 if ctx.quick else 2, Layouts=set(LAYOUTS))
     ctx.tlc("ByteOrderMC.tla", what="theorems + mechanism refines property (this machine's order, chains)",
             cfg_text=cfg(constants=dict(full, MachineLE=MACHINE_LE), invariants=THEOREMS),
